@@ -494,7 +494,8 @@ def self_once(rep, u):
     undec = None
     for skip, direct in ((0, 0), (0, 1), (1, 0), (1, 1)):
         fl = O | (S if skip else 0) | (D if direct else 0)
-        pe = r_stride.PE(u, call_default={"calloc": 0x900000})
+        # the originator is one of the pool's slots: tp_thread_get(tp, its number) is the originator itself
+        pe = r_stride.PE(u, call_default={"calloc": 0x900000, "tp_thread_get": 0x2000, "tpt_get_num": 1})
         binda = {"tp": 0x1000, "src": 0x2000, "flags": fl, "msg_cb": 0x3000, "udata": 0x4000, "done_cb": 0x5000,
                  "tp_thread_count_max_get(tp)": 4,
                  # the originator is a running thread of this pool and is the caller
@@ -505,7 +506,7 @@ def self_once(rep, u):
             if r == "unsure":
                 undec = "direct-call guard not evaluable"
             ca += 1 if r == "sure" else 0
-        pe = r_stride.PE(u)
+        pe = r_stride.PE(u, call_default={"tp_thread_get": 0x1111, "tpt_get_num": 1})
         bindb = {"tpt": 0x2222, "udata": 0x6000, "msg_data": 0x6000, "msg_data->flags": fl, "msg_data->tpt": 0x1111, key(nxt[0]): 29,
                  # originator and forwarding thread belong to the same pool (the foreign-originator case is R-OBO's)
                  "tpt_get_tp(msg_data->tpt)": 0x1000, "tpt_get_tp(tpt)": 0x1000}
@@ -525,6 +526,33 @@ def self_once(rep, u):
         rep.undecided("R-STATE", fb, "self-once", desc, undec)
     else:
         rep.proved("R-STATE", fb, "self-once", desc, "4 flag combinations")
+    # an originator that belongs to the pool but is not one of its slots (the pool virtual thread, tp_thread_get_pvt) is no
+    # target: neither site serves it, whatever the flags (tpt_get_tp(originator) == tp holds for it, the slot identity does not)
+    bad2 = undec2 = None
+    for skip, direct in ((0, 0), (0, 1)):
+        fl = O | (S if skip else 0) | (D if direct else 0)
+        pe = r_stride.PE(u, call_default={"calloc": 0x900000, "tp_thread_get": 0x7777, "tpt_get_num": 1})
+        binda = {"tp": 0x1000, "src": 0x2000, "flags": fl, "msg_cb": 0x3000, "udata": 0x4000, "done_cb": 0x5000, "tp_thread_count_max_get(tp)": 4,
+                 "tpt_is_running(src)": 1, "tpt_get_tp(src)": 0x1000, "tpt_get_current()": 0x2000}
+        served = 0
+        for pos, c in a_sites:
+            r, path = pe.reach_stmt(fa, fa.entry, set(fa.reachable_blocks()), binda, pos[0], fa.blocks[pos[0]].elems[pos[1]])
+            if r == "unsure":
+                undec2 = "direct-call guard not evaluable"
+            served += 1 if r == "sure" else 0
+        pe = r_stride.PE(u, call_default={"tp_thread_get": 0x7777, "tpt_get_num": 1})
+        bindb = {"tpt": 0x2222, "udata": 0x6000, "msg_data": 0x6000, "msg_data->flags": fl, "msg_data->tpt": 0x1111, key(nxt[0]): 29,
+                 "tpt_get_tp(msg_data->tpt)": 0x1000, "tpt_get_tp(tpt)": 0x1000}
+        pos, c = b_sites[0]
+        r, path = pe.reach_stmt(fb, fb.entry, set(fb.reachable_blocks()), bindb, pos[0], fb.blocks[pos[0]].elems[pos[1]])
+        if r == "unsure":
+            undec2 = "end-of-chain guard not evaluable"
+        served += 1 if r == "sure" else 0
+        n += 1
+        if served:
+            bad2 = bad2 or "SELF_DIRECT=%d: an originator with tpt_get_tp() == tp that is no slot of the pool (the virtual thread) is served %d time(s): 5 callbacks and sent = 5 in a pool of 4" % (direct, served)
+    desc2 = "in one-by-one mode an originator that is not one of the pool's thread slots (the pool virtual thread) is not a target"
+    (rep.violated if bad2 else rep.undecided if undec2 else rep.proved)("R-STATE", fb, "non-slot-originator-not-served", desc2, bad2 or undec2 or "2 flag combinations")
     # the chain walk skips exactly the originator (msg_data->tpt), whoever is forwarding at the moment
     fw = tp.need(u, "tpt_msg_one_by_one_send_next__int")
     rep.functions.add(fw.name)
@@ -585,6 +613,7 @@ def run(rep, tier):
     rep.floor("sites that act on behalf of the originator", c10_audit.self_membership_rule(rep, u), 3)
     rep.floor("bsend_ex direct calls and single sends", c10_audit.bsend_count_rule(rep, u), 2)
     rep.floor("synchronous broadcast send sites", c10_audit.sync_self_rule(rep, u, fl), 1)
+    c10_audit.sync_waiter_rule(rep, u, fl)
     c10_audit.sync_mask_rule(rep, u, fl)
     rep.floor("one-by-one chain starters", c10_audit.obo_sibling_rule(rep, u), 2)
     c10_audit.origin_running_rule(rep, u)
